@@ -117,10 +117,15 @@ class C03:
         self.matrix[cell] = self.matrix.get(cell, 0) + 1
         ck.case(stream, h, True, {"family": family, "exo": cell[0], "vcgen": cell[1], "src": src[len(progen.HEADER):][:600]},
                 "%s/%s" % cell)
-        # ---- search on every accepted program
+        # ---- search on every accepted procedure: `foo` and, when the module loads, its callees as procedures
+        # in their own right
         found = []
         if accepted:
             found = self.search(stream, family, src, ir)
+            from exo.API import Procedure
+            for nm, obj in vars(mod).items():
+                if isinstance(obj, Procedure) and nm != "foo" and obj._loopir_proc.name == nm:
+                    self.search(stream + "-callee", family, src, obj._loopir_proc, procname=nm)
         # ---- correspondence bookkeeping
         if verdict_model is not None:
             if accepted and verdict_model == "invalid":
@@ -168,7 +173,7 @@ class C03:
         return mod.foo._loopir_proc
 
     # ------------------------------------------------------------------ search + tagging
-    def search(self, stream, family, src, ir):
+    def search(self, stream, family, src, ir, procname="foo"):
         ck = self.ck
         info, doms, fails = self.runner.search(ir, stop_after=2)
         out = []
@@ -182,7 +187,7 @@ class C03:
             tag, extra = self.tag(ex, name, sx, txt, err)
             self.tags[(err, tag)] = self.tags.get((err, tag), 0) + 1
             key = "accepted-unsafe:%s:%s:%s/%s" % (err, tag, stream, family)
-            ck.violation(key, dict({"source": src, "procedure": "foo", "input": txt, "outcome": "fails " + err,
+            ck.violation(key, dict({"source": src, "procedure": procname, "input": txt, "outcome": "fails " + err,
                                     "exported": sx}, **extra),
                          "the front end accepts a procedure that the reference semantics runs into %s (%s) on an input "
                          "satisfying its assertions" % (err, tag))
@@ -196,7 +201,7 @@ class C03:
                 if loc.startswith("fails Alias"):
                     self.alias["dynamic"] += 1
                     ck.violation("accepted-unsafe:Alias:call-alias-dynamic:%s/%s" % (stream, family),
-                                 {"source": src, "procedure": "foo", "input": txt, "locate": loc, "exported": sx},
+                                 {"source": src, "procedure": procname, "input": txt, "locate": loc, "exported": sx},
                                  "an executed call of an accepted procedure binds two arguments to views of one block")
                     out.append(("Alias", "call-alias-dynamic"))
                     break
